@@ -387,9 +387,11 @@ impl Call {
             }
             Form::ResolveUuid | Form::RGetUuid => c.blob = rng.pattern_bytes(16),
             Form::RGetTypes => {
-                let n = match rng.below(10) {
-                    0 => rng.range(31, 34) as usize,
-                    1 => *rng.pick(&[0usize, 1, 29, 30]),
+                let n = match rng.below(40) {
+                    0..=3 => rng.range(31, 34) as usize,
+                    4 => 256 + rng.below(40) as usize,
+                    5 => *rng.pick(&[255usize, 256, 286, 287, 512, 542]),
+                    6..=9 => *rng.pick(&[0usize, 1, 29, 30]),
                     _ => rng.below(31) as usize,
                 };
                 c.blob = rng.pattern_bytes(n);
